@@ -342,7 +342,7 @@ Definition expected_executors : list (string * string) :=
 Definition expected_sync : list (string * string) :=
   [ ("SyncExecutor.__init__", "957fe250daf99d701d5d");
     ("SyncExecutor.shutdown", "0a8912b5c3591f3afaf7");
-    ("SyncExecutor.submit", "8b3dcd8ce44b32717ac3");
+    ("SyncExecutor.submit", "0a01ced32d4474138b71");
     ("<class SyncExecutor>", "5f9d1eb35976f6ca983d");
     ("<module>", "8d22d9f25c23487003a7") ].
 
